@@ -91,12 +91,27 @@ func (o *Ob) Undecided(construct string, msg string) {
 	}
 }
 
-// NeedFloor fails the obligation when fewer constructs were matched than confirmed by hand:
-// a rule that matches nothing would pass vacuously for ever.
+// NeedFloor fails the obligation when clearly fewer constructs were matched than were confirmed
+// by hand on the reviewed tree (n): a rule that matches nothing would pass vacuously for ever.
+// The threshold leaves room for behaviour-preserving edits that merge sites (two handlers sharing
+// one mapping helper, two loops merged into one): about a third of the confirmed count, at least
+// one site, may disappear before the rule is considered to have lost its anchors. Each rule
+// reports the loss of an individual anchor it depends on by itself ("shape"/"anchor" findings).
 func (o *Ob) NeedFloor(n int) {
-	o.Floor = n
-	if len(o.Sites) < n {
-		o.Undecided("floor", fmt.Sprintf("rule matched %d construct(s), at least %d expected: the anchored code changed shape and the rule would pass vacuously", len(o.Sites), n))
+	t := n
+	switch {
+	case n >= 3:
+		slack := n / 3
+		if slack < 1 {
+			slack = 1
+		}
+		t = n - slack
+	case n == 2:
+		t = 1
+	}
+	o.Floor = t
+	if len(o.Sites) < t {
+		o.Undecided("floor", fmt.Sprintf("rule matched %d construct(s), at least %d expected (%d confirmed on the reviewed tree): the anchored code changed shape and the rule would pass vacuously", len(o.Sites), t, n))
 	}
 }
 
